@@ -460,7 +460,8 @@ def configs(tier):
     opt += ['Toric2DCode(2,2) Z', 'RotatedPlanar2DCode(2,3) Z', 'Planar2DCode(2,3) X']
     sec = ['Toric2DCode(2,2)/XZZX/x y', 'Planar2DCode(2,3)/XZZX/y x', 'RotatedPlanar2DCode(3,3)/XZZX/x none']
     real = ['real unionfind Toric2DCode(3,3) w=1', 'real unionfind Toric2DCode(3,4) w=1', 'real sweepmatch Toric3DCode(3,3,3) w=1',
-            'real rotatedsweepmatch RotatedPlanar3DCode(3,3,3) w=1', 'real matching RotatedPlanar2DCode(3,3) w=1']
+            'real rotatedsweepmatch RotatedPlanar3DCode(3,3,3) w=1', 'real matching RotatedPlanar2DCode(3,3) w=1',
+            'real unionfind Toric2DCode(5,5) w=2 xtrans', 'real matching Toric2DCode(5,6) w=2 xtrans']
     if tier != 'quick':
         real += ['real unionfind Toric2DCode(4,4) w=1', 'real unionfind Toric2DCode(5,5) w=2', 'real sweepmatch Toric3DCode(3,4,3) w=1',
                  'real sweepmatch Toric3DCode(4,4,4) w=1', 'real rotatedsweepmatch RotatedPlanar3DCode(4,4,3) w=1',
